@@ -240,7 +240,7 @@ Print Assumptions C13_pad_own_coords.
    lexsort, bincount(minlength), cumulative offsets) through median_of_labels_correct ---- *)
 
 Theorem C13_median_independent : forall (image : list Z) labels idxs image' labels' idxs' k k' l,
-  length image = length labels -> length image' = length labels' -> NoDup idxs -> NoDup idxs' ->
+  length image = length labels -> length image' = length labels' ->
   SpecC18.sel image labels l = SpecC18.sel image' labels' l ->
   nth_error idxs k = Some l -> nth_error idxs' k' = Some l ->
   nth_error (MedianC18.median_of_labels image labels idxs) k =
@@ -249,13 +249,13 @@ Proof. exact MedianC13Proofs.median_independent. Qed.
 Print Assumptions C13_median_independent.
 
 Theorem C13_median_relabel : forall (f : nat -> nat) (image : list Z) labels idxs,
-  (forall a b, f a = f b -> a = b) -> length image = length labels -> NoDup idxs ->
+  (forall a b, f a = f b -> a = b) -> length image = length labels ->
   MedianC18.median_of_labels image (map f labels) (map f idxs) = MedianC18.median_of_labels image labels idxs.
 Proof. exact MedianC13Proofs.median_relabel. Qed.
 Print Assumptions C13_median_relabel.
 
 Theorem C13_median_request : forall (image : list Z) labels idxs,
-  length image = length labels -> NoDup idxs ->
+  length image = length labels ->
   MedianC18.median_of_labels image labels idxs =
   flat_map (fun l => MedianC18.median_of_labels image labels [l]) idxs.
 Proof. exact MedianC13Proofs.median_request. Qed.
